@@ -3,7 +3,7 @@
 From Coq Require Import ZArith Reals List Bool.
 From PW Require Import Num NumR Vec NpList Result.
 From PW.model Require Import M_polyline_base M_segment M_polyline_nearest.
-From PW.proofs Require Import P_segment P_polyline_nearest.
+From PW.proofs Require Import P_segment P_polyline_nearest P_polyline_nearest2.
 Import ListNotations.
 Local Open Scope R_scope.
 
@@ -12,7 +12,7 @@ Local Open Scope R_scope.
 Theorem C07_closest_point_on_segment : forall p a v,
   closest_point ROps p a v = vadd ROps a (vscale ROps (closest_t ROps p a v) v) /\
   0 <= closest_t ROps p a v <= 1.
-Proof. intros p a v. exact (conj (closest_point_is_seg_at p a v) (closest_t_range p a v)). Qed.
+Proof. exact closest_point_on_segment. Qed.
 
 (* no point a + s v, 0 <= s <= 1, of the segment is closer to the query (v = 0 included) *)
 Theorem C07_closest_point_optimal : forall p a v s, 0 <= s <= 1 ->
@@ -40,7 +40,7 @@ Proof. exact pairs_are_rowwise. Qed.
 (* a polyline with at least one segment always gets an answer, for any number of query points *)
 Theorem C07_nearest_total : forall pl ps, pl_segments pl <> [] ->
   exists rs, nearest_many ROps pl ps = Ok rs.
-Proof. intros pl ps H. exact (nearest_many_total pl H ps). Qed.
+Proof. exact nearest_total. Qed.
 
 (* stacked queries: as many rows as queries, row k is the answer for query k alone *)
 Theorem C07_nearest_stacked_is_rowwise : forall pl ps rs, nearest_many ROps pl ps = Ok rs ->
@@ -85,8 +85,8 @@ Proof. exact nearest_ret_requested_unless_only_t. Qed.
    that already contains the former as a vertex) are not within 1e-8 of a vertex, and the second lies on a
    later edge: the result is the open path  nearest(a), original vertices strictly in between, nearest(b).
    PARTIAL: "does not touch itself / not within 1e-3 of a vertex" enters as these explicit hypotheses; that
-   the search on the working polyline finds the same point as on the original one is not proved here, nor is
-   the closed (wrapping) case (covered by the correspondence check only). *)
+   the search on the working polyline finds the same point as on the original one is not proved here.
+   The closed case (forward and wrap-around) is C07_sliced_at_points_closed_spec_partial below. *)
 Theorem C07_sliced_at_points_spec_partial : forall pl a b ra rb,
   pclosed pl = false ->
   nearest_one ROps pl a = Ok ra ->
@@ -108,10 +108,31 @@ Theorem C07_sliced_at_points_backward_partial : forall pl a b ra rb,
   sliced_at_points ROps pl a b = Raise ValueError.
 Proof. exact sliced_at_points_open_backward. Qed.
 
+(* Closed polyline, same kind of hypotheses. ia / eb are the vertex positions at which the two nearest points are
+   inserted (the end vertex of their segment; 0 for the closing edge). If b's point comes after a's the sub-path
+   is  nearest(a), the original vertices in between, nearest(b);  otherwise it WRAPS: nearest(a), the vertices up
+   to the end of the vertex list, the vertices from the start up to b's position, nearest(b).
+   PARTIAL for the same reason as the open case (the hypotheses speak about the working polyline). *)
+Theorem C07_sliced_at_points_closed_spec_partial : forall pl a b ra rb,
+  pclosed pl = true ->
+  nearest_one ROps pl a = Ok ra ->
+  index_of_vertex ROps (pv pl) (n_pt ra) = None ->
+  nearest_one ROps (MkPolyline (insert_at (pv pl) (edge_end pl (n_idx ra)) (n_pt ra)) true) b = Ok rb ->
+  index_of_vertex ROps (insert_at (pv pl) (edge_end pl (n_idx ra)) (n_pt ra)) (n_pt rb) = None ->
+  let ia := edge_end pl (n_idx ra) in
+  let eb := edge_end (MkPolyline (insert_at (pv pl) (edge_end pl (n_idx ra)) (n_pt ra)) true) (n_idx rb) in
+  ((ia < eb)%nat -> sliced_at_points ROps pl a b =
+      Ok (MkPolyline (n_pt ra :: firstn (eb - S ia) (skipn ia (pv pl)) ++ [n_pt rb]) false)) /\
+  ((eb <= ia)%nat -> sliced_at_points ROps pl a b =
+      Ok (MkPolyline (n_pt ra :: skipn ia (pv pl) ++ firstn eb (pv pl) ++ [n_pt rb]) false)).
+Proof. exact sliced_at_points_closed. Qed.
+
 (* the orientation decision. Open: flip exactly when the point nearest p2 comes before the point nearest p1
    in (segment index, t) order. Closed: flip exactly when the sub-path from p2 to p1 is shorter than the one
    from p1 to p2. The result is the polyline itself or its end-to-end reversal.
-   PARTIAL: that (segment index, t) order is arc-length order needs positive segment lengths, not proved. *)
+   PARTIAL: that (segment index, t) order is arc-length order needs positive segment lengths, not proved; that
+   after the flip the sub-path from p1 to p2 IS the shorter one needs slicing on the reversed polyline to be the
+   reversal of slicing on the original (different tie-breaking and indices), not proved — oracle-checked. *)
 Theorem C07_aligned_along_subsegment_spec_partial :
   (forall pl p1 p2 r1 r2, pclosed pl = false ->
      nearest_one ROps pl p1 = Ok r1 -> nearest_one ROps pl p2 = Ok r2 ->
@@ -123,7 +144,7 @@ Theorem C07_aligned_along_subsegment_spec_partial :
   (forall pl p1 p2 r, aligned_along_subsegment ROps pl p1 p2 = Ok r ->
      exists f, aligned_flip ROps pl p1 p2 = Ok f /\
        r = (if f then MkPolyline (rev (pv pl)) (pclosed pl) else pl)).
-Proof. exact (conj aligned_open_decision (conj aligned_closed_decision aligned_result)). Qed.
+Proof. exact aligned_spec. Qed.
 
 (* non-vacuity: a polyline with a zero-length segment has segments, and the hypotheses of the slicing theorem
    are met by a concrete open polyline (checked by the correspondence cases as well) *)
@@ -134,6 +155,6 @@ Definition C07_all := (C07_closest_point_on_segment, C07_closest_point_optimal, 
   C07_on_segment_uses_closest_point, C07_pairwise_is_rowwise, C07_nearest_total, C07_nearest_stacked_is_rowwise,
   C07_nearest_is_min_over_segments, C07_nearest_outputs_consistent, C07_nearest_ties_lowest_index,
   C07_nearest_returns_requested_refuted, C07_nearest_returns_requested_partial,
-  C07_sliced_at_points_spec_partial, C07_sliced_at_points_backward_partial,
+  C07_sliced_at_points_spec_partial, C07_sliced_at_points_backward_partial, C07_sliced_at_points_closed_spec_partial,
   C07_aligned_along_subsegment_spec_partial).
 Print Assumptions C07_all.
